@@ -23,6 +23,10 @@ FINE1 = [v(t) for t in np.linspace(-3, 3, 25)]
 FINE2 = [v(a, b) for a in np.linspace(-2, 2, 9) for b in np.linspace(-2, 2, 9)]
 
 
+VERIFIED_RANGE = {1: 3.0, 2: 2.0}      # the boxes covered by FINE1 / FINE2, where the self-test verifies a membership
+OUT_OF_RANGE = [0]
+
+
 class Member(object):
     """A function (value + subdifferential selection) or an operator (image selection)."""
     kind = "f"
@@ -40,10 +44,20 @@ class Member(object):
         self.center = center
         self.vdisp = vdisp
 
+    # a member accepted for a (class, parameters) pair it does not claim analytically was only verified on the fine grid:
+    # `limited` copies (see methods.eligible) count every evaluation outside that range, and such runs are discarded
+    limited = False
+
+    def _touch(self, x):
+        if self.limited and self.matrix is None and float(np.abs(np.asarray(x, float)).max(initial=0.0)) > VERIFIED_RANGE[self.dim] + 1e-9:
+            OUT_OF_RANGE[0] += 1
+
     def value(self, x):
+        self._touch(x)
         return float(self._value(x)) if self._value is not None else 0.0
 
     def grads(self, x):
+        self._touch(x)
         return [np.array(g, float) for g in self._grads(x)]
 
     def in_domain(self, x):
